@@ -298,8 +298,8 @@ def checkLogging (lc : Json) : Except Str Json :=
 
 /-! ### the nine actions: validation, then commit -/
 
-/-- CreateStateMachine: the key and the record to store -/
-def validateCreate (cfg : Cfg) (env : Env) (s : State) (p : Params) : Except Str (Str × Machine) :=
+/-- CreateStateMachine, the arguments that name the machine: (ARN, name, role, type) -/
+def createKey (cfg : Cfg) (p : Params) : Except Str (Str × Str × Str × Str) :=
   match arg p "name" with
   | some (.str name) =>
     if !validName name then .error (S "InvalidName") else
@@ -309,23 +309,34 @@ def validateCreate (cfg : Cfg) (env : Env) (s : State) (p : Params) : Except Str
       match roleAccount role with
       | none => .error (S "InvalidArn")
       | some account =>
-        let arn := smArnOf cfg.region account name
         match (arg p "type").getD (jstr "STANDARD") with
         | .str ty =>
-          if !(ty = S "STANDARD" || ty = S "EXPRESS") then .error (S "StateMachineTypeNotSupported") else
-          if (lookup s.machines arn).isSome then .error (S "StateMachineAlreadyExists") else
-          match decodeDefinition cfg env ((arg p "definition").getD (.str [])) with
-          | .error e => .error e
-          | .ok d =>
-            if !d.truthy then .error (S "MissingRequiredParameter") else
-            if cfg.logging then
-              match checkLogging ((arg p "loggingConfiguration").getD (.obj [])) with
-              | .error e => .error e
-              | .ok lc => .ok (arn, ⟨name, role, d, some lc, ty, env.now, env.now⟩)
-            else .ok (arn, ⟨name, role, d, none, ty, env.now, env.now⟩)
+          if !(ty = S "STANDARD" || ty = S "EXPRESS") then .error (S "StateMachineTypeNotSupported")
+          else .ok (smArnOf cfg.region account name, name, role, ty)
         | _ => .error (S "StateMachineTypeNotSupported")
     | _ => .error (S "InvalidArn")
   | _ => .error (S "InvalidName")
+
+def createLogging (cfg : Cfg) (p : Params) : Except Str (Option Json) :=
+  if cfg.logging then
+    match checkLogging ((arg p "loggingConfiguration").getD (.obj [])) with
+    | .error e => .error e
+    | .ok lc => .ok (some lc)
+  else .ok none
+
+/-- CreateStateMachine: the key and the record to store -/
+def validateCreate (cfg : Cfg) (env : Env) (s : State) (p : Params) : Except Str (Str × Machine) :=
+  match createKey cfg p with
+  | .error e => .error e
+  | .ok (arn, name, role, ty) =>
+    if (lookup s.machines arn).isSome then .error (S "StateMachineAlreadyExists") else
+    match decodeDefinition cfg env ((arg p "definition").getD (.str [])) with
+    | .error e => .error e
+    | .ok d =>
+      if !d.truthy then .error (S "MissingRequiredParameter") else
+      match createLogging cfg p with
+      | .error e => .error e
+      | .ok lg => .ok (arn, ⟨name, role, d, lg, ty, env.now, env.now⟩)
 
 /-- the `roleArn` argument of an update: `none` = not supplied -/
 def updRole (p : Params) : Except Str (Option Str) :=
@@ -395,9 +406,8 @@ def execMatches (arn : Str) (f : Option Json) (e : Exec) : Bool :=
 def listExecutions (s : State) (arn : Str) (f : Option Json) : List Json :=
   (s.executions.filter (fun kv => execMatches arn f kv.2)).map (fun kv => Exec.summary kv.1 kv.2)
 
-/-- StartExecution: (execution ARN, name, decoded input, machine ARN, machine) -/
-def validateStart (env : Env) (s : State) (p : Params) :
-    Except Str (Str × Str × Json × Str × Machine) :=
+/-- StartExecution, the arguments checked before the machine is looked up: (ARN, name, input) -/
+def startArgs (env : Env) (p : Params) : Except Str (Str × Str × Json) :=
   match arnArg validSmArn (arg p "stateMachineArn") with
   | .error e => .error e
   | .ok arn =>
@@ -409,16 +419,23 @@ def validateStart (env : Env) (s : State) (p : Params) :
         if t.length > maxDataLength then .error (S "InvalidExecutionInput") else
         match parseJson t with
         | none => .error (S "InvalidExecutionInput")
-        | some input =>
-          match lookup s.machines arn with
-          | none => .error (S "StateMachineDoesNotExist")
-          | some m =>
-            match parseArn arn with
-            | none => .error (S "InvalidArn")
-            | some (region, account, resource) =>
-              .ok (execArnOf region account resource name, name, input, arn, m)
+        | some input => .ok (arn, name, input)
       | _ => .error (S "InvalidExecutionInput")
     | _ => .error (S "InvalidName")
+
+/-- StartExecution: (execution ARN, name, decoded input, machine ARN, machine) -/
+def validateStart (env : Env) (s : State) (p : Params) :
+    Except Str (Str × Str × Json × Str × Machine) :=
+  match startArgs env p with
+  | .error e => .error e
+  | .ok (arn, name, input) =>
+    match lookup s.machines arn with
+    | none => .error (S "StateMachineDoesNotExist")
+    | some m =>
+      match parseArn arn with
+      | none => .error (S "InvalidArn")
+      | some (region, account, resource) =>
+        .ok (execArnOf region account resource name, name, input, arn, m)
 
 /-- the start event handed to the event dispatcher (the projection the API determines) -/
 def startEvent (x : Str × Str × Json × Str × Machine) : Json :=
